@@ -29,6 +29,8 @@ EmptyEnt == [created |-> Zero(ObjU), svc |-> [s \in SvcU |-> Zero(ObjU)]]
 DInit == [obj |-> Zero(ObjU),                    \* uuid -> cookie of the existing object, 0 = none
           svc |-> [o \in ObjU |-> Zero(SvcU)],   \* uuid -> service uuid -> cookie, 0 = none
           used |-> {},                           \* cookies issued so far
+          ocs |-> {},                            \* <<uuid, cookie>> of every object ever created
+          lts |-> {},                            \* lifetimes bound so far: <<uuid, cookie>> of their scope
           st |-> "none",                         \* "none" | "running"
           scope |-> "all",                       \* "all" | "current"
           ent |-> [k \in Keys |-> EmptyEnt],
@@ -147,6 +149,8 @@ Enabled(d, op) ==
     [] op.op = "do" -> d.obj[op.o] # 0
     [] op.op = "cs" -> d.obj[op.o] # 0 /\ d.svc[op.o][op.s] = 0 /\ op.c \notin d.used /\ op.c # 0
     [] op.op = "ds" -> d.obj[op.o] # 0 /\ d.svc[op.o][op.s] # 0
+    \* a lifetime can be bound to the id of any object that exists or has existed
+    [] op.op = "lt" -> <<op.o, op.c>> \in d.ocs \ d.lts
     [] op.op = "build" -> d.st = "none"
     [] op.op = "restart" -> d.st = "running"
     [] OTHER -> FALSE
@@ -159,8 +163,9 @@ Start(d, scope) ==
 Do(d0, op) ==
   LET d == [d0 EXCEPT !.out = <<>>] IN
   CASE op.op = "co" ->
-         LET d1 == [d EXCEPT !.obj[op.o] = op.c, !.used = @ \cup {op.c}] IN
+         LET d1 == [d EXCEPT !.obj[op.o] = op.c, !.used = @ \cup {op.c}, !.ocs = @ \cup {<<op.o, op.c>>}] IN
          IF Receives(d) THEN Feed(d1, BE("oc", op.o, op.c, 0, 0)) ELSE d1
+    [] op.op = "lt" -> [d EXCEPT !.lts = @ \cup {<<op.o, op.c>>}]
     [] op.op = "cs" ->
          LET d1 == [d EXCEPT !.svc[op.o][op.s] = op.c, !.used = @ \cup {op.c}] IN
          IF Receives(d) THEN Feed(d1, BE("sc", op.o, d.obj[op.o], op.s, op.c)) ELSE d1
@@ -185,6 +190,10 @@ ViewOf(d, k) == LET spec == EntryOf(k) IN
                 {<<o, d.ent[k].created[o], [s \in spec.svcs |-> d.ent[k].svc[s][o]]>> : o \in {o \in ObjU : d.ent[k].created[o] # 0}}
 \* all scope: the bus now; current scope: the bus when the listener started
 Expected(d, k) == IF d.scope = "all" THEN TruthOf(k, d.obj, d.svc) ELSE TruthOf(k, d.snapObj, d.snapSvc)
+
+\* C19 (lifetimes): a lifetime has ended exactly when the object incarnation that is its scope does not
+\* exist (any more) -- another object under the same uuid is not the scope
+LtEnded(d, x) == d.obj[x[1]] # x[2]
 
 ViewIsTruth(d) == d.st = "running" => \A k \in Keys : ViewOf(d, k) = Expected(d, k)
 NoPanic(d) == d.panic = ""
